@@ -13,8 +13,8 @@ PROPERTY = "C18"
 TAU_DB = 1.25
 META = {
     "bounds": {"quick": "white: symbolic psd, fs; fftnoise: spectra of N=2..9 symbolic complex bins with symbolic unit phasors; band_limited_noise: N in {4,5,8,9} with symbolic band edges and sample rate; shaping filter: 4 configurations (alpha in {0.5,1,2} at (100,0.01,10) and 1.5 at (2,1e-3,1)), for each the real constructor's coefficients are taken as exact rationals and the band [2*fmin_eff, fmax_eff/2] is covered by cells (50 per decade; the cell width is part of the tolerance: a cell's target interval is [f_b^-alpha*10^(-tau/10), f_a^-alpha*10^(tau/10)]) on each of which the solver decides EVERY frequency",
-               "thorough": "13 configurations (alpha in {0.01,0.25,0.5,1,1.5,2} x 2 band set-ups, plus alpha=1 over 6.6 decades), 100 cells per decade"},
-    "outside": ["(alpha, fs, fmin, fmax) off the grid", "the two corner octaves (a cascade of first-order sections is 3*alpha/2 dB off at a corner by construction)", "numpy's ifft (the property is stated on the array handed to it)"],
+               "thorough": "13 configurations (alpha in {0.01,0.25,0.5,1,1.5,2} x 2 band set-ups, plus alpha=1 over 3.3 decades at fs=1000), 100 cells per decade"},
+    "outside": ["(alpha, fs, fmin, fmax) off the grid", "bands reaching below 1.6e-4*fs (the response is a rational function of cos(omega); cell enclosures are widened by 1e-12, which needs 1-cos(omega) >> 1e-12)", "the two corner octaves (a cascade of first-order sections is 3*alpha/2 dB off at a corner by construction)", "numpy's ifft (the property is stated on the array handed to it)"],
     "stubs": ["np.fft.ifft -> captures its argument", "np.fft.fftfreq -> the documented grid k/(N*d)", "rng.random -> fresh symbols; cos/sin of the random phase -> a symbolic unit phasor"],
     "assumptions": ["reading of 'about 1 dB between its lower and upper corner': within %.2f dB on [2*fmin_eff, fmax_eff/2] (fixed before looking at what passes, DESIGN.md section 4 C18)" % TAU_DB],
 }
@@ -288,10 +288,13 @@ def obligations(tier):
         grid = [(a, 100.0, 0.01, 10.0) for a in (0.5, 1.0, 2.0)] + [(1.5, 2.0, 1e-3, 1.0)]
         per = 50
     else:
-        grid = [(a, fs, fmin, fmax) for a in (0.01, 0.25, 0.5, 1.0, 1.5, 2.0) for (fs, fmin, fmax) in ((100.0, 0.01, 10.0), (2.0, 1e-3, 1.0))] + [(1.0, 1000.0, 1e-4, 400.0)]
+        grid = [(a, fs, fmin, fmax) for a in (0.01, 0.25, 0.5, 1.0, 1.5, 2.0) for (fs, fmin, fmax) in ((100.0, 0.01, 10.0), (2.0, 1e-3, 1.0))] + [(1.0, 1000.0, 0.2, 400.0)]
         per = 100
     for (a, fs, fmin, fmax) in grid:
         d = config(a, fs, fmin, fmax)
+        # the response is encoded as a rational function of c = cos(omega) with cell enclosures widened by 1e-12: that needs
+        # 1 - cos(omega) >> 1e-12 at the lowest frequency checked (omega >= 1e-3, i.e. f >= 1.6e-4 fs); lower bands are outside
+        assert 2 * math.pi * 2 * d["fmin_eff"] / fs >= 1e-3, "band too low for the cos-parametrisation"
         n = len(_cells(d, per))
         obs.append({"name": "shape/alpha%s_fs%s_%s-%s/wiring" % (a, fs, fmin, fmax), "fn": "ob_shape_wiring", "params": dict(alpha=a, fs=fs, fmin=fmin, fmax=fmax), "vacuity": False})
         step = 8
